@@ -126,6 +126,14 @@ Proof.
 Qed.
 Print Assumptions C03_toc_complete_and_tiling.
 
+(* Appending a tar in several AppendTar calls on one Writer is the same as appending the concatenation in one
+   call (holds for the code after C03-fix-1, which the model follows), so every theorem above also covers a
+   Writer fed by several calls, MinChunkSize > 0 included. *)
+Theorem C03_append_calls_compose :
+  forall i o calls s, append_calls i o s calls = run_entries i o s (concat calls).
+Proof. intros i o calls s. exact (append_calls_concat i o calls s). Qed.
+Print Assumptions C03_append_calls_compose.
+
 (* ---------------- non-vacuity ---------------- *)
 
 (* A parallel build (3 workers, chunk size 512) of a small archive succeeds on the model, the hypotheses of
